@@ -60,6 +60,7 @@ PredF(p, first) ==
                  [] p.op \in {"=", "!="} -> \/ (p.l.t = "path" /\ InF(p.l) /\ (StrE(p.r) \/ IntLit(p.r)))
                                             \/ (p.r.t = "path" /\ InF(p.r) /\ (StrE(p.l) \/ IntLit(p.l)))
                                             \/ (StrE(p.l) /\ StrE(p.r)) \/ (NumE(p.l) /\ NumE(p.r))
+                                            \/ (p.l.t = "path" /\ InF(p.l) /\ p.r.t = "path" /\ InF(p.r))
                  [] p.op \in {"<", "<=", ">", ">="} -> \/ (p.l.t = "path" /\ InF(p.l) /\ IntLit(p.r))
                                                       \/ (p.r.t = "path" /\ InF(p.r) /\ IntLit(p.l))
                                                       \/ (NumE(p.l) /\ NumE(p.r))
